@@ -30,11 +30,13 @@ THEOREMS = [
     "PorepyVerif.C09.constant_dt_hits_of_matches",
     "PorepyVerif.C09.run_terminates",
     "PorepyVerif.C09.accepted_steps_bounded",
+    "PorepyVerif.C09.hits_exactly_with_zero_tolerance",
+    "PorepyVerif.C09.restart_keeps_property",
 ]
 LEAN_MODULES = ["PorepyVerif.C09.Props"]
 AUDIT = "PorepyVerif/C09/Audit.lean"
 DRIVER = "PorepyVerif/C09/Driver.lean"
-N = {"quick": 600, "thorough": 25000}
+N = {"quick": 500, "thorough": 25000}
 RULE = ("streams: A (55%) time loop on dyadic parameters (schedule of 2-6 points with arbitrary dyadic start, gaps 1/16..4, dt bounds/"
         "factors with small power-of-two denominators, tolerances default/zero/dyadic/large/negative/rtol>1, outcome tapes of 5-40 entries with failure "
         "rates 0-0.8 and iteration counts around the optimal-range end points; dt_init fits the first interval in 90%, divides the gaps "
@@ -287,7 +289,18 @@ def _impl(case):
         _CACHE[key] = out
         return out
     out["init"] = dict({"dt_min": frac(float(tm.dt_min_max[0])), "dt_max": frac(float(tm.dt_min_max[1]))}, **tm.snap())
-    if case["kind"] == "loop":
+    if case["kind"] == "restart":
+        r = _restart(p, case)
+        if r is None:
+            out["trace"] = []
+        else:
+            tm2, t, dt, status, accepted = r
+            out["trace"] = [({"op": "restore", "time": frac(t), "dt": frac(dt)}, tm2._restored)] + list(tm2._log)
+            trace = out["trace"]
+            if status == "running":
+                while trace and trace[-1][0]["op"] in ("inc_time", "inc_index"):
+                    trace.pop()
+    elif case["kind"] == "loop":
         status, accepted, _ = _real_loop(tm, case["outcomes"])
         trace = list(tm._log)
         if status == "running":
@@ -328,6 +341,31 @@ def _impl(case):
     return out
 
 
+def _restart(p, case):
+    """First manager runs `outcomes` while the loop is running, its state is exported with the real
+    write_time_information; a FRESH manager loads it (load_time_information +
+    set_time_and_dt_from_exported_steps, as load_data_from_vtu/pvd do) and runs `outcomes2`."""
+    import tempfile, pathlib
+    tm1 = _construct(p)
+    status1, acc1, _ = _real_loop(tm1, case["outcomes"])
+    if status1 != "running":
+        return None
+    # undo the increase_time of the step whose outcome is not on the tape (the loop was cut there)
+    tm1.time = acc1[-1]
+    path = pathlib.Path(tempfile.mkdtemp(prefix="c09_")) / "times.json"
+    tm1.write_time_information(path)
+    tm2 = _construct(p)
+    tm2.load_time_information(path)
+    tm2.set_time_and_dt_from_exported_steps(-1)
+    tm2._restored = tm2.snap()
+    tm2._log.clear()
+    t, dt = float(tm2.time), float(tm2.dt)
+    status, accepted, steps = _real_loop(tm2, case["outcomes2"])
+    tm2._steps = steps
+    tm2._pending1 = int(tm1._scheduled_idx) - (1 if tm1._is_about_to_hit_schedule else 0)
+    return tm2, t, dt, status, accepted
+
+
 def impl_run(case):
     r = _impl(case)
     return {"init": r["init"], "trace": [o for _, o in r["trace"]], "loop": r["loop"]}
@@ -348,6 +386,50 @@ def model_ops(case):
     if case["kind"] == "loop":
         ops += [_init_op(case["p"]), {"op": "loop", "outcomes": case["outcomes"]}]
     return ops
+
+
+def _expected_cursor(p, t):
+    s = [_fl(x) for x in p["schedule"]]
+    k = 1
+    while k < len(s) and (t >= s[k] or _isclose(t, s[k], _fl(p["rtol"]), _fl(p["atol"]))):
+        k += 1
+    return k
+
+
+def _oracle_restart(case):
+    """Restart from exported (time, dt): the schedule cursor must point to the next scheduled time not yet
+    reached, and the continued loop must keep the property (strict increase, final time, hits)."""
+    p = case["p"]
+    try:
+        r = _restart(p, case)
+    except ValueError:
+        return None  # the constructor rejects the parameters
+    if r is None:
+        return None
+    tm2, t, dt, status, accepted = r
+    sched = [_fl(x) for x in p["schedule"]]
+    rtol, atol = _fl(p["rtol"]), _fl(p["atol"])
+    short = f"restart at t={t} dt={dt} schedule={sched} outcomes2={case['outcomes2'][:10]}"
+    if tm2._restored["idx"] != _expected_cursor(p, t):
+        return {"what": f"after set_time_and_dt_from_exported_steps the schedule cursor is {tm2._restored['idx']}, the next scheduled time not yet reached has index {_expected_cursor(p, t)} ({short})", "key": "restart-stale-schedule-cursor"}
+    if not _valid_params(p):
+        return None  # the cursor must be right for every constructible manager; the rest needs the premise
+    if _isclose(t, sched[min(tm2._pending1, len(sched) - 1)], rtol, atol):
+        return None  # outside the theorem's hypothesis (clock already within tolerance of the pending time)
+    if status.startswith("crashed") or (status.startswith("raised") and status != "raised:ValueError"):
+        return {"what": f"restarted loop ended with {status} ({short})", "key": "restart-unexpected-exception"}
+    for a, b in zip(accepted, accepted[1:]):
+        if not b > a:
+            return {"what": f"restarted loop: accepted times not strictly increasing: {a} then {b} ({short})", "key": "restart-not-increasing"}
+    if any(a > sched[-1] + 1e-9 * max(1.0, sched[-1]) for a in accepted):
+        return {"what": f"restarted loop exceeds the final time ({short})", "key": "restart-exceeds-final"}
+    if any(not st["dt"] > 0 for st in tm2._steps):
+        return {"what": f"restarted loop takes a non-positive step ({short})", "key": "restart-dt-nonpositive"}
+    if status == "finished":
+        for x in sched:
+            if x > t and not any(_isclose(a, x, rtol, atol) or abs(a - x) <= 1e-9 * max(1.0, abs(x)) for a in accepted):
+                return {"what": f"restarted loop never hit the scheduled time {x} ({short})", "key": "restart-missed-scheduled"}
+    return None
 
 
 def model_decode(outs, case):
@@ -386,6 +468,13 @@ def _cmp_entry(a, b, exact):
 
 
 def compare(impl, model, case):
+    mi = model["init"]
+    if "admissible" in mi:
+        if case["p"]["dt_min_max"] is not None and mi["admissible"] != _valid_params(case["p"]):
+            return f"premise: Lean `Admissible` = {mi['admissible']} but the oracle's premise check says {_valid_params(case['p'])}"
+        if case["p"]["constant_dt"] and mi["small_tol"] != _small_tol(case["p"]):
+            return f"premise: Lean `SmallTol` = {mi['small_tol']} but the oracle's check says {_small_tol(case['p'])}"
+        model = dict(model, init={k: v for k, v in mi.items() if k not in ("admissible", "small_tol")})
     exact = bool(case.get("exact"))
     knife = False  # a comparison so far was closer to its threshold than rounding can resolve
     seq = [("init", impl["init"], model["init"])]
@@ -454,6 +543,8 @@ def _valid_params(p):
 def oracle(case):
     """The property statement checked directly on the real TimeManager driven by the real time loop."""
     p = case["p"]
+    if case["kind"] == "restart":
+        return _oracle_restart(case)
     if case["kind"] == "loop" and p["constant_dt"]:
         return _oracle_constant(case)
     if case["kind"] != "loop" or not _valid_params(p):
@@ -804,7 +895,31 @@ def _normalize(case):
     return case
 
 
+def _gen_restart(rng, tier):
+    c = _gen_adaptive(rng, tier, dyadic=rng.random() < 0.8)
+    outs = [o if o >= 0 else c["p"]["iter_low"] for o in c["outcomes"]]  # phase 1: converged steps only
+    k = rng.randint(0, min(len(outs), 12))
+    return {"kind": "restart", "stream": "R", "exact": c["exact"], "p": c["p"], "outcomes": outs[:k], "outcomes2": c["outcomes"][k:k + 25]}
+
+
+def _gen_scale(rng, tier):
+    """extreme scale: the whole problem multiplied by 2**e (seconds vs. years), exact in binary64"""
+    c = _gen_adaptive(rng, tier, dyadic=True)
+    f = F(2) ** rng.choice([-30, -12, 20, 40])
+    p = c["p"]
+    p["schedule"] = [frac(F(x) * f) for x in p["schedule"]]
+    p["dt_init"] = frac(F(p["dt_init"]) * f)
+    p["dt_min_max"] = [frac(F(x) * f) for x in p["dt_min_max"]]
+    c["stream"] = "S"
+    return c
+
+
 def gen_case(rng, tier):
+    r = rng.random()
+    if r < 0.08:
+        return _normalize(_gen_restart(rng, tier))
+    if r < 0.12:
+        return _normalize(_gen_scale(rng, tier))
     r = rng.random()
     if r < 0.55:
         c = _gen_adaptive(rng, tier, dyadic=True)
@@ -824,6 +939,12 @@ def nontrivial(case):
 
 
 def shrink_candidates(case):
+    if case["kind"] == "restart":
+        for k in range(len(case["outcomes2"])):
+            yield dict(case, outcomes2=case["outcomes2"][:k])
+        for k in range(len(case["outcomes"])):
+            yield dict(case, outcomes=case["outcomes"][:k])
+        return
     if case["kind"] != "loop":
         return
     outs = case["outcomes"]
@@ -839,7 +960,18 @@ def shrink_candidates(case):
 
 
 def stats(cases, impl_outs):
-    st = {"streams": {}, "loop_status": {}, "init_errors": 0, "compute_calls": 0, "recompute_calls": 0, "raised_in_compute": 0,
+    st = {"strata": {"two_point_schedule": sum(1 for c in cases if len(c["p"]["schedule"]) == 2),
+                     "six_point_schedule": sum(1 for c in cases if len(c["p"]["schedule"]) == 6),
+                     "schedule_starts_at_0": sum(1 for c in cases if F(c["p"]["schedule"][0]) == 0),
+                     "dt_init_equals_dt_min": sum(1 for c in cases if c["p"]["dt_min_max"] and c["p"]["dt_init"] == c["p"]["dt_min_max"][0]),
+                     "dt_init_equals_first_gap": sum(1 for c in cases if len(c["p"]["schedule"]) > 1 and F(c["p"]["dt_init"]) == F(c["p"]["schedule"][1]) - F(c["p"]["schedule"][0])),
+                     "iter_low_equals_upp": sum(1 for c in cases if c["p"]["iter_low"] == c["p"]["iter_upp"]),
+                     "zero_or_negative_tolerance": sum(1 for c in cases if F(c["p"]["rtol"]) <= 0),
+                     "all_failed_tape": sum(1 for c in cases if c.get("outcomes") and all(o < 0 for o in c["outcomes"])),
+                     "restart": sum(1 for c in cases if c["kind"] == "restart"),
+                     "restart_cursor_moves": sum(1 for c, o in zip(cases, impl_outs) if c["kind"] == "restart" and isinstance(o, dict) and o.get("trace") and _expected_cursor(c["p"], float(F(o["trace"][0]["time"]))) > 1),
+                     "extreme_scale": sum(1 for c in cases if c.get("stream") == "S")},
+          "streams": {}, "loop_status": {}, "init_errors": 0, "compute_calls": 0, "recompute_calls": 0, "raised_in_compute": 0,
           "landed_exactly_without_correction": 0, "index_advanced_by_2": 0, "steps_below_dt_min": 0, "premise_holds": 0}
     for c, o in zip(cases, impl_outs):
         st["streams"][c.get("stream", "?")] = st["streams"].get(c.get("stream", "?"), 0) + 1
